@@ -56,6 +56,23 @@ pub fn emit(ev: &str, fields: &str) {
     }
 }
 
+static SECTION: Mutex<()> = Mutex::new(());
+
+/// While events are recorded, every critical section of the import pipeline that emits events runs under this
+/// global lock, so that the recorded order is a linearization at the granularity of the specification's actions.
+/// Returns `None` (no serialisation at all) when nothing is recorded.
+pub fn section() -> Option<std::sync::MutexGuard<'static, ()>> {
+    let on = {
+        let s = SINK.lock().unwrap_or_else(|e| e.into_inner());
+        s.mem.is_some() || s.file.is_some() || (!s.opened && std::env::var("VERIF_TRACE").is_ok())
+    };
+    if on {
+        Some(SECTION.lock().unwrap_or_else(|e| e.into_inner()))
+    } else {
+        None
+    }
+}
+
 /// Start (clearing the buffer) or stop capturing events in memory.
 pub fn capture(on: bool) {
     let mut s = SINK.lock().unwrap_or_else(|e| e.into_inner());
